@@ -46,6 +46,11 @@ def ref_inventory(refs, cfg, log, block):
     return conns, user
 
 
+from vlib.common import load_findings  # noqa: E402
+
+KNOWN_C11_BUILD = {f["key"] for f in load_findings() if f.get("status") == "known" and f.get("property") == "C11" and ":facade-build:" in f.get("key", "")}
+
+
 def check_facade(sh, kind, facade, spa, refs, cfg, log, block, wit):
     conns, user = ref_inventory(refs, cfg, log, block)
     exp = {"PUMP": [], "BLOWER": [], "LIGHT": []}
@@ -103,8 +108,11 @@ def check_facade(sh, kind, facade, spa, refs, cfg, log, block, wit):
         sh.violation(f"{keyp}:keys-not-unique", f"automation keys / unique ids are not distinct: duplicates {dup}", dict(wit, keys=keys))
     else:
         for d in devs:
-            if facade.get_device(d.key) is not d:
-                sh.violation(f"{keyp}:lookup", f"get_device({d.key!r}) does not return that device", wit)
+            # looked up the way a client does: by an equal key that is a different string object
+            # (read from a configuration store, a command line, JSON)
+            k2 = "".join(list(d.key)) if isinstance(d.key, str) else d.key
+            if facade.get_device(d.key) is not d or facade.get_device(k2) is not d:
+                sh.violation(f"{keyp}:lookup", f"get_device({d.key!r}) does not return that device (by the device's own key object: {facade.get_device(d.key) is d}; by an equal string: {facade.get_device(k2) is d})", wit)
                 break
     if facade.devices != keys:
         sh.violation(f"{keyp}:devices-list", f"facade.devices {facade.devices} != keys of all automation devices {keys}", wit)
@@ -176,7 +184,14 @@ def shard(sh: Shard, combos, seed, nwire, kinds, hashseed=None):
                     facade = build()
                 except Exception as e:
                     bad_build.add((kind, plat, l))
-                    sh.count("facade_not_constructible_skipped(C11)")
+                    # the platform-logs on which no facade can be built at all are C11's recorded
+                    # findings; a wiring on any other table pair that makes construction fail leaves
+                    # the wired devices unexposed
+                    if f"C11:facade-build:{kind}:{plat}-log-{l}" in KNOWN_C11_BUILD:
+                        sh.count("facade_not_constructible_skipped(C11)")
+                    else:
+                        d = describe_exc(e)
+                        sh.violation(f"C12:{kind}:facade-build", f"the {kind} facade cannot be constructed for this wiring on {plat} cfg {c} / log {l}: {d['type']}: {d['msg']} - none of the wired devices is exposed", dict(wit, exc=d))
                     continue
                 try:
                     check_facade(sh, kind, facade, spa, refs, cfg, log, block, wit)
